@@ -58,6 +58,15 @@ KERNELS = [
          params={"matrix": M, "objectives": V, "weights": V, "p0": S, "p1": S, "p2": S, "q0": S, "q1": S}, ret="A2 m m Bool", pick=6, pids=["C08"]),
     dict(name="electre2_weak", file="skcriteria/agg/electre.py", fn="electre2",
          params={"matrix": M, "objectives": V, "weights": V, "p0": S, "p1": S, "p2": S, "q0": S, "q1": S}, ret="A2 m m Bool", pick=7, pids=["C08"]),
+    dict(name="wsm_refuses", kind="guards", file="skcriteria/agg/simple.py", cls="WeightedSumModel", fn="_evaluate_data",
+         params={"matrix": M, "objectives": V}, unused=["weights"], call=("wsm", ["matrix", "weights"]), ret="Bool", pick=None, pids=["C04"]),
+    dict(name="wpm_refuses", kind="guards", file="skcriteria/agg/simple.py", cls="WeightedProductModel", fn="_evaluate_data",
+         params={"matrix": M, "objectives": V}, unused=["weights"], call=("wpm", ["matrix", "weights"]), ret="Bool", pick=None, pids=["C04"]),
+    dict(name="fmf_refuses", kind="guards", file="skcriteria/agg/moora.py", cls="FullMultiplicativeForm", fn="_evaluate_data",
+         params={"matrix": M}, unused=["objectives", "weights"], call=("fmf", ["matrix", "objectives", "weights"]), ret="Bool", pick=None, pids=["C04"]),
+    dict(name="multimoora_refuses", kind="guards", file="skcriteria/agg/moora.py", cls="MultiMOORA", fn="_evaluate_data",
+         params={"matrix": M}, unused=["objectives", "weights"], call=("multimoora", ["matrix", "objectives", "weights"]), ret="Bool", pick=None,
+         pids=["C04"]),
     dict(name="cenit", file="skcriteria/preprocessing/scalers.py", fn="matrix_scale_by_cenit_distance", params={"matrix": M, "objectives": V},
          ret=M, pick=None, pids=["C11", "C12"]),
     dict(name="scale_by_sum_M", file="skcriteria/preprocessing/scalers.py", fn="scale_by_sum", params={"arr": M}, bind={"axis": 0}, ret=M, pick=None,
@@ -282,6 +291,8 @@ class Tr:
             if self._axis(kws, allow_keepdims=False) != ".a1":
                 raise Untranslated("sum over a column selection along another axis")
             return f"(Np.sum_kept {self.e(args[0])})"
+        if name == "any" and len(args) == 1 and not kws:
+            return f"(Np.any_all {self.e(args[0])})"
         if name in red and len(args) >= 1:
             if len(args) == 2:
                 kws = kws + [ast.keyword(arg="axis", value=args[1])]
@@ -603,6 +614,8 @@ def translate_one(repo: Path, k):
             "set_option linter.unusedVariables false\nnamespace Skc.Gen\nopen Skc Skc.Np\n")
     try:
         tree = ast.parse((repo / k["file"]).read_text())
+        if k.get("kind") == "guards":
+            return _translate_guards(k, tree, head)
         fn = _find_fn(tree, k["fn"])
         if fn is None:
             raise Untranslated(f"function {k['fn']} not found")
@@ -630,6 +643,43 @@ def translate_one(repo: Path, k):
     except (Untranslated, SyntaxError, OSError) as ex:
         why = f"{type(ex).__name__}: {ex}"
         return head + f"/-- not translated: {why} -/\ndef {k['name']}_untranslated : String := {C_lean_str(why)}\nend Skc.Gen\n", why
+
+
+def _translate_guards(k, tree, head):
+    """the refusals of a decision maker: the leading `if <test>: raise ValueError(...)` statements of `<cls>._evaluate_data`, as
+    one boolean; the method must not raise anywhere else and must hand its arrays to the kernel in the recorded order"""
+    cls = next((c for c in tree.body if isinstance(c, ast.ClassDef) and c.name == k["cls"]), None)
+    fn = next((f for f in (cls.body if cls else []) if isinstance(f, ast.FunctionDef) and f.name == k["fn"]), None)
+    if fn is None:
+        raise Untranslated(f"{k['cls']}.{k['fn']} not found")
+    names = [a.arg for a in fn.args.args][1:]
+    for nm in names:
+        if nm not in k["params"] and nm not in k.get("unused", []):
+            raise Untranslated(f"parameter {nm} is neither typed nor declared unused")
+    tr = Tr(dict(k, params={p: t for p, t in k["params"].items()}), fn)
+    body = list(fn.body)
+    if body and isinstance(body[0], ast.Expr) and isinstance(body[0].value, ast.Constant):
+        body = body[1:]
+    tests, i = [], 0
+    while i < len(body) and isinstance(body[i], ast.If) and not body[i].orelse and len(body[i].body) == 1 and isinstance(body[i].body[0], ast.Raise):
+        exc = body[i].body[0].exc
+        if not (isinstance(exc, ast.Call) and isinstance(exc.func, ast.Name) and exc.func.id == "ValueError"):
+            raise Untranslated("a guard raises something else than ValueError")
+        tests.append(tr.e(body[i].test))
+        i += 1
+    rest = body[i:]
+    if any(isinstance(n, ast.Raise) for st in rest for n in ast.walk(st)):
+        raise Untranslated("the method raises after the leading guards")
+    want_fn, want_args = k["call"]
+    calls = [n for st in rest for n in ast.walk(st) if isinstance(n, ast.Call) and isinstance(n.func, ast.Name) and n.func.id == want_fn]
+    if len(calls) != 1 or calls[0].keywords or [getattr(a, "id", None) for a in calls[0].args] != want_args:
+        raise Untranslated(f"the kernel is not called as {want_fn}({', '.join(want_args)})")
+    params = " ".join(f"({_q(p)} : {t})" for p, t in k["params"].items() if p in names)
+    expr = " || ".join(tests) if tests else "false"
+    src = head + "section\n" + CTX + "\n"
+    src += f"/-- does `{k['cls']}.{k['fn']}` refuse (raise `ValueError`) before calling `{want_fn}`? -/\n"
+    src += f"def {k['name']} {params} : Bool :=\n  {expr}\nend\nend Skc.Gen\n"
+    return src, "ok"
 
 
 def C_lean_str(s):
